@@ -9,7 +9,7 @@
 //! (ed25519 and secp256k1: key inlined in the peer id; ecdsa and rsa: `key` field required), with
 //! data absent / empty / non-empty, seqno lengths 0 and 8, inlined keys with and without a
 //! redundant correct `key` field. Every base message is then mutated field by field: from (flip,
-//! remove, empty, truncated, other peer), data (flip, append, remove/empty), seqno (flip, remove,
+//! remove, empty, truncated, other peer, other peer + re-signed with the own key), data (flip, append, remove/empty), seqno (flip, remove,
 //! lengths 0/7/9, other), topic (change, empty, append), signature (flip at sampled positions,
 //! remove, empty, truncated, other message's, other key's), key (flip, remove, garbage, other
 //! peer's key). Unsigned shapes (anonymous, author-only, seqno-only, signature-only) are sent too.
@@ -26,7 +26,8 @@
 //!  * every mode: surfaced data/topic equal what was sent; no panic.
 //! Not judged: whether well-formed messages are accepted (the statement is about soundness; it is
 //! the non-triviality rule instead), present-but-empty from/seqno/signature in Anonymous mode,
-//! ECDSA (r, n-s) malleability (not generated), unknown protobuf fields.
+//! ECDSA (r, n-s) malleability (not generated), unknown protobuf fields, `key` bytes that differ from
+//! the original but decode to the same public key (lenient DER; counted as `equivalent-key-encoding`).
 use std::sync::OnceLock;
 
 use libp2p_gossipsub::{
@@ -85,6 +86,9 @@ enum Kind {
     Mutation(&'static str, &'static str),
     /// message that never was signed (shape name)
     Unsigned(&'static str),
+    /// `key` bytes changed but still decode to the same public key: sent and judged like a base
+    /// message, not counted as a mutation
+    EquivalentKeyEncoding,
 }
 impl Kind {
     fn name(&self) -> String {
@@ -92,6 +96,7 @@ impl Kind {
             Kind::SignedBase => "signed-base".into(),
             Kind::Mutation(f, h) => format!("mut-{f}-{h}"),
             Kind::Unsigned(s) => format!("unsigned-{s}"),
+            Kind::EquivalentKeyEncoding => "equivalent-key-encoding".into(),
         }
     }
 }
@@ -277,10 +282,21 @@ fn gen_base(rng: &mut Rng, kt: usize, ks: &Keys) -> (WireMsg, &'static str, usiz
 
 fn mutations(rng: &mut Rng, base: &WireMsg, kt: usize, ki: usize, ks: &Keys) -> Vec<(Kind, WireMsg)> {
     let mut out: Vec<(Kind, WireMsg)> = vec![];
+    let base_key = base.key.as_ref().map(|k| PublicKey::try_decode_protobuf(k).ok());
     let mut push = |f: &'static str, h: &'static str, w: WireMsg| {
-        if &w != base {
-            out.push((Kind::Mutation(f, h), w))
+        if &w == base {
+            return;
         }
+        if f == "key" {
+            // a different byte string that decodes to the *same* public key (non-canonical DER /
+            // protobuf) is another encoding of the same field value, not a mutation of it
+            let k = w.key.as_ref().map(|k| PublicKey::try_decode_protobuf(k).ok());
+            if matches!((&k, &base_key), (Some(Some(a)), Some(Some(b))) if a == b) {
+                out.push((Kind::EquivalentKeyEncoding, w));
+                return;
+            }
+        }
+        out.push((Kind::Mutation(f, h), w))
     };
     let other_kp = {
         // a different key (other type or other index)
@@ -297,6 +313,14 @@ fn mutations(rng: &mut Rng, base: &WireMsg, kt: usize, ki: usize, ks: &Keys) -> 
     push("from", "empty", WireMsg { from: Some(vec![]), ..base.clone() });
     push("from", "truncate", WireMsg { from: Some(from[..from.len() - 1].to_vec()), ..base.clone() });
     push("from", "other-peer", WireMsg { from: Some(other_kp.public().to_peer_id().to_bytes()), ..base.clone() });
+    {
+        // impersonation: claim another peer as source, keep the own key field, sign again with the
+        // own key (what the "key must match the source" rule exists for)
+        let victim = ks.pool[kt][(ki + 1) % ks.pool[kt].len()].public().to_peer_id().to_bytes();
+        let mut o = WireMsg { from: Some(victim), key: Some(ks.pool[kt][ki].public().encode_protobuf()), ..base.clone() };
+        sign(&ks.pool[kt][ki], &mut o);
+        push("from", "impersonate-resigned", o);
+    }
     // data
     match &base.data {
         Some(d) if !d.is_empty() => {
@@ -430,6 +454,9 @@ pub fn run(args: &Args) -> i32 {
                     _ => base_ok,
                 };
                 check.case(sig, nontrivial);
+                if matches!(kind, Kind::EquivalentKeyEncoding) && matches!(mode, ValidationMode::Strict) {
+                    check.count("equivalent_key_encodings_sent", 1);
+                }
                 check.count(&format!("outcome::{}::{}", mode_name(mode), class.split(':').next().unwrap()), 1);
                 if let Kind::Mutation(f, _) = kind {
                     if matches!(mode, ValidationMode::Strict) {
